@@ -51,6 +51,10 @@ def programs():
     add('reread-comments', H + 'type A [N /* rows */ * /* cols */ M]int\n', [H + 'type A [N * M]int\n'])
     add('reread-comments', H + 'type S[ /* key */ K /* constraint */ comparable, V any] struct{}\n', [H + 'type S[K comparable, V any] struct{}\n'])
     add('reread-comments', H + 'type A [N + // one\n\tM + // two\n\t1]int\n', [H + 'type A [N + M + 1]int\n'])
+    add('reread-comments', H + 'type T /* paramètres */ [P any] struct{}\ntype U /* 长度 */ [N]int\n', [H + 'type T [P any] struct{}\ntype U [N]int\n'])
+    add('reread-comments', H + 'type I interface {\n\t// 读取器\n\tio.Reader\n\t/* é */ ~int | ~string\n\t// 方法\n\tm()\n}\n', [H + 'type I interface { io.Reader; ~int | ~string; m() }\n'])
+    add('reread-comments', H + 'type S struct {\n\ta int /* é */; b int // 世界\n\tc I /* 😀 */\n}\n', [H + 'type S struct { a int; b int; c I }\n'])
+    add('iface-elements', H + 'type I interface { M /* c */ (x int) string; N/**/(); O /* é */ () }\n', [H + 'type I interface { M(x int) string; N(); O() }\n'])
     add('reread-lines', H + 'type A [\n\tN]int\n', [H + 'type A [N]int\n', H + 'type A [ // c\n\tN]int\n'])
     add('reread-lines', H + 'type A [N +\n\t2]int\n', [H + 'type A [N + 2]int\n'])
     add('reread-lines', H + 'type T[\n\tP any,\n\tQ any,\n] int\n', [H + 'type T[P any, Q any] int\n', H + 'type T[P any, Q any,] int\n'])
